@@ -225,9 +225,10 @@ class NaiveForecaster(_OptionalForecastingHorizonMixin, _BaseWindowForecaster):
                         f"window must not be a missing value."
                     )
                 else:
-                    # formula for slope
+                    # formula for slope, between the end points of the
+                    # observations actually in the window
                     slope = (last_window[-1] - last_window[0]) / (
-                        self.window_length_ - 1
+                        len(last_window) - 1
                     )
 
                     # get zero-based index by subtracting the minimum
